@@ -168,18 +168,21 @@ theorem splitBlock_intervals {ir ir' : IR} {b off nb : Nat} {added : Bool}
 @[simp] theorem joinTables_intervals (ir : IR) (b1 : Block) (id2 : Nat) :
     (ir.joinTables b1 id2).intervals = ir.intervals := rfl
 
-@[simp] theorem joinCode_intervals (ir : IR) (b1 : Block) (id2 : Nat) :
-    (ir.joinCode b1 id2).intervals = ir.intervals := by
+@[simp] theorem joinCode_intervals (ir : IR) (b1 : Block) (id2 s2 : Nat) :
+    (ir.joinCode b1 id2 s2).intervals = ir.intervals := by
   unfold IR.joinCode
   simp only [removeFunctionBlock_intervals]
-  rw [foldl_intervals _ (by intro i e; rfl)]
   have h1 : ∀ (x : IR), ((x.inEdges id2).foldl (fun ir e =>
       if Edge.isFall e && e.src == .block b1.id then { ir with cfg := cfgDiscard ir.cfg e } else ir) x).intervals
       = x.intervals := by
     intro x; apply foldl_intervals; intro i e; split <;> rfl
+  have h2 : ∀ (x : IR), (if b1.size == 0 then
+      (x.inEdges id2).foldl (fun ir e => ir.updateEdge e (updDst e (.block b1.id))) x
+    else (x.inEdges id2).foldl (fun ir e => { ir with cfg := cfgDiscard ir.cfg e }) x).intervals = x.intervals := by
+    intro x; split <;> (apply foldl_intervals; intro i e; rfl)
   split
-  · rw [foldl_intervals _ (by intro i e; rfl)]; exact h1 ir
-  · rw [foldl_intervals _ (by intro i e; rfl)]; exact h1 ir
+  · rw [foldl_intervals _ (by intro i e; rfl), h2, h1]
+  · rw [foldl_intervals _ (by intro i e; rfl), h2, h1]
 
 theorem joinBlocks_intervals {ir ir' : IR} {a b : Nat} (h : ir.joinBlocks a b = .ok ir') :
     ir'.intervals = ir.intervals := by
@@ -270,6 +273,16 @@ theorem removeBlock_intervals {ir ir' : IR} {b : Nat} {px r : Bool}
       split at h
       · injection h with h; injection h with h1 h2; subst h1; simp
       · injection h with h; injection h with h1 h2; subst h1; simp
+
+@[simp] theorem connectEmptyTail_intervals (ir : IR) (t : Nat) : (ir.connectEmptyTail t).intervals = ir.intervals := by
+  unfold IR.connectEmptyTail
+  split
+  · rfl
+  · split
+    · split
+      · split <;> rfl
+      · rfl
+    · rfl
 
 /-! ### _cleanup_modified_blocks -/
 
